@@ -41,18 +41,18 @@ def coq_dirs(f) -> str:
     return coq_list(out)
 
 
-MULTI = {"Arg", "Elts", "UpperTuple", "TsEnum", "DictKeys", "Range", "Decorator", "Nested", "Macro", "RsEnum"}
+MULTI = {"Arg", "Elts", "UpperTuple", "UpperBinop", "TsEnum", "DictKeys", "Range", "Decorator", "Nested", "Macro", "RsEnum"}
 CTXS = {
     "py": ["Assign", "Arg", "Return", "Default", "Elts", "Compare", "Binop", "Mul", "Neg", "Upper", "UpperNeg", "UpperAnn",
-           "UpperTuple", "Range", "Enumerate", "StrRepeatL", "StrRepeatR", "DictKeys",
+           "UpperTuple", "UpperBinop", "Range", "Enumerate", "EnumerateKw", "StrRepeatL", "StrRepeatR", "DictKeys",
            "Interp", "Decorator", "Nested", "Match", "Kwarg", "Index", "Lambda"],
     "ts": ["Assign", "Arg", "Return", "Default", "Elts", "Compare", "Binop", "Mul", "Neg", "Upper", "UpperNeg", "UpperAnn",
-           "UpperTuple", "TsEnum", "Interp", "Nested", "Match", "Index", "Lambda", "TsField"],
-    "rs": ["Assign", "Arg", "Return", "Elts", "Compare", "Binop", "Mul", "Neg", "Upper", "UpperNeg", "UpperTuple", "RsStatic",
+           "UpperTuple", "UpperBinop", "TsEnum", "Interp", "Nested", "Match", "Index", "Lambda", "TsField"],
+    "rs": ["Assign", "Arg", "Return", "Elts", "Compare", "Binop", "Mul", "Neg", "Upper", "UpperNeg", "UpperTuple", "UpperBinop", "RsStatic",
            "Macro", "Nested", "Match", "Index", "Lambda", "RsEnum"],
 }
 JS_EXCLUDED = {"UpperAnn", "TsEnum", "TsField"}
-ITEM_CTXS = {"Upper", "UpperNeg", "UpperTuple", "RsStatic"}          # Rust items: allowed at module level
+ITEM_CTXS = {"Upper", "UpperNeg", "UpperTuple", "UpperBinop", "RsStatic"}          # Rust items: allowed at module level
 
 
 def ctx_ok(lang: str, scope_kind: str, ctx: str) -> bool:
@@ -130,14 +130,16 @@ def _stmt(lang: str, site, k: int):
     c, nm = site["ctx"], site.get("name") or "v"
     ls = [lit_text(lang, l) for l in site["lits"]]
     one, many = ls[0], ", ".join(ls)
+    prod = " * ".join(ls) if len(ls) > 1 else f"x * {one}"          # UpperBinop: one product (at most two literals)
     if lang == "py":
         return {
             "Assign": f"{nm} = {one}", "Arg": f"{nm}({many})", "Return": f"return {one}",
             "Default": f"def g{k}(a={one}): pass", "Elts": f"{nm} = [{many}]", "Compare": f"if x > {one}: pass",
             "Binop": f"{nm} = x + {one}", "Mul": f"{nm} = x * {one}", "Neg": f"{nm} = -{one}",
             "Upper": f"{nm} = {one}", "UpperNeg": f"{nm} = -{one}", "UpperAnn": f"{nm}: int = {one}",
-            "UpperTuple": f"{nm} = ({many},)", "Range": f"for i in range({many}): pass",
+            "UpperTuple": f"{nm} = ({many},)", "UpperBinop": f"{nm} = {prod}", "Range": f"for i in range({many}): pass",
             "Enumerate": f"for i, w in enumerate(xs, {one}): pass",
+            "EnumerateKw": f"for i, w in enumerate(xs, start={one}): pass",
             "StrRepeatL": f's{k} = "-" * {one}', "StrRepeatR": f's{k} = {one} * "-"',
             "DictKeys": f"{nm} = {{" + ", ".join(f'{t}: "k{j}"' for j, t in enumerate(ls)) + "}",
             "Interp": f"{nm} = f'v{{{one}}}'", "Decorator": ([f"@{nm}({many})", f"def g{k}(): pass"], 0),
@@ -151,7 +153,7 @@ def _stmt(lang: str, site, k: int):
             "Default": f"function g{k}(a = {one}) {{}}", "Elts": f"let {nm} = [{many}];", "Compare": f"if (x > {one}) {{}}",
             "Binop": f"let {nm} = x + {one};", "Mul": f"let {nm} = x * {one};", "Neg": f"let {nm} = -{one};",
             "Upper": f"const {nm} = {one};", "UpperNeg": f"const {nm} = -{one};", "UpperAnn": f"const {nm}{ann} = {one};",
-            "UpperTuple": f"const {nm} = [{many}];",
+            "UpperTuple": f"const {nm} = [{many}];", "UpperBinop": f"const {nm} = {prod};",
             "TsEnum": f"enum E{k} {{ " + ", ".join(f"M{j} = {t}" for j, t in enumerate(ls)) + " }",
             "Interp": f"let {nm} = `v${{{one}}}`;", "Nested": f"let {nm} = [[{many}]];",
             "Match": f"switch (x) {{ case {one}: break; }}", "Index": f"let {nm} = x[{one}];",
@@ -162,7 +164,7 @@ def _stmt(lang: str, site, k: int):
         "Elts": f"let {nm} = [{many}];", "Compare": f"if x > {one} {{}}",
         "Binop": f"let {nm} = x + {one};", "Mul": f"let {nm} = x * {one};", "Neg": f"let {nm} = -{one};",
         "Upper": f"const {nm}: i64 = {one};", "UpperNeg": f"const {nm}: i64 = -{one};",
-        "UpperTuple": f"const {nm}: &[i64] = &[{many}];", "RsStatic": f"static {nm}: i64 = {one};",
+        "UpperTuple": f"const {nm}: &[i64] = &[{many}];", "UpperBinop": f"const {nm}: i64 = {prod};", "RsStatic": f"static {nm}: i64 = {one};",
         "Macro": f"{nm}!({many});", "Nested": f"let {nm} = [[{many}]];", "Match": f"match x {{ {one} => {{}}, _ => {{}} }}",
         "Index": f"let {nm} = x[{one}];", "Lambda": f"let {nm} = |y| y + {one};",
         "RsEnum": f"enum E{k} {{ " + ", ".join(f"M{j} = {t}" for j, t in enumerate(ls)) + " }",
